@@ -101,6 +101,7 @@ type Obligation struct {
 	Model  string
 	Output string
 	Replay *Replay
+	File   string
 }
 
 // ---------------------------------------------------------------------------
